@@ -55,6 +55,11 @@ CHECKS = {
             'For every modifier-applied repetition-code circuit in the constructor box (distance x cycles x refocusing x state) and multi-round circuits: listing order, schedule, '
             'acquisition indices and exported Stim program compared before/after flatten().',
             'bounded program spaces and constructor box; identity clauses for library circuits only'),
+    'C15': (MC, '4/C15', 'explicit-state exploration of build programs vs independent OpenQL translator on a recording platform',
+            'All flat programs of length <= 2 over all 26 operation classes, all N2(2) programs and a two-level space are exported through to_openql with PlatformManager.construct_program / '
+            'construct_kernel replaced (inside the checker) by recorders; the linearised call tree must equal the reference translation of the listing (gate table, cz + barrier + two phase updates, '
+            'wait duration, block position and multiplicity) and exporting twice must give the same names. Thorough tier: the recorder is bound to real OpenQL by compiling a fixed family and parsing the cQASM.',
+            'bounded program spaces; recording stand-in for the OpenQL platform (validated against real OpenQL in the thorough tier)'),
 }
 
 
